@@ -3,10 +3,13 @@ package main
 import (
 	"bufio"
 	"fmt"
+	"math/rand"
 	"os"
 	"regexp"
 	"sort"
 	"strings"
+
+	"github.com/rhysd/actionlint"
 )
 
 func init() { props["C12"] = runC12 }
@@ -250,5 +253,53 @@ func runC12(c *ctx, r *Report) error {
 	r.Exhaustive = true
 	r.sample(map[string]string{"position": "job env", "doc_key": "jobs.<job_id>.env", "expr": "toJSON(runner)", "expected": "reported"})
 	r.sample(map[string]string{"position": "step if", "doc_key": "jobs.<job_id>.steps.if", "expr": "!ALWAYS()", "expected": "allowed"})
-	return nil
+	// tie of the sema model that not_allowed_iff / special_not_allowed_sound are about, under random availability lists
+	nTie := 4000
+	if !c.quick {
+		nTie = 60000
+	}
+	// "the verdict does not depend on where inside the expression the name occurs": every expression with at most
+	// maxOps of ! ( ) && || over the leaves {disallowed context, disallowed special function, allowed context, literal}
+	maxOps := 3
+	if !c.quick {
+		maxOps = 4
+	}
+	var fixed []semaCase
+	{
+		var ctxs, sps []string
+		for _, x := range allContexts {
+			if x != "runner" {
+				ctxs = append(ctxs, x)
+			}
+		}
+		for _, x := range allSpecial {
+			if x != "always" {
+				sps = append(sps, x)
+			}
+		}
+		env := &semaEnv{vars: map[string]actionlint.ExprType{}, availCtx: ctxs, availSpecial: sps}
+		for _, e := range logicalSkeletons(maxOps, []string{"RUNNER.os", "always()", "github.sha", "true"}) {
+			fixed = append(fixed, semaCase{env, e})
+		}
+	}
+	return semaTie(c, r, nTie, func(rng *rand.Rand, env *semaEnv) {
+		var cs, sp []string
+		for _, x := range allContexts {
+			if rng.Intn(3) != 0 {
+				cs = append(cs, x)
+			}
+		}
+		for _, x := range allSpecial {
+			if rng.Intn(2) == 0 {
+				sp = append(sp, x)
+			}
+		}
+		env.availCtx, env.availSpecial = cs, sp
+	}, fixed, func(cs Case) (string, string) {
+		names := []string{"context-not-allowed", "special-func-not-allowed"}
+		if a, b := semaCodes(cs.Impl, names...), semaCodes(cs.Model, names...); a != b {
+			return "not-allowed-reports-differ-from-table-rule", "the checker's 'not allowed here' reports (" + a + ") differ from the proved rule (" + b + ") for the same availability lists"
+		}
+		return "", ""
+	})
 }
